@@ -137,6 +137,22 @@ def make_model(name: str, seed: int, dtype: torch.dtype) -> torch.nn.Module:
             torch.nn.Flatten(),
             torch.nn.Linear(27, 4),
         )
+    elif name == 'conv2':
+        # rectangular kernel, stride, padding: in (2,5,4) -> out (3,3,3)
+        # A 2*3*2+1=13, G 3 ; linear 27 -> 4: A 28, G 4
+        m = torch.nn.Sequential(
+            torch.nn.Conv2d(2, 3, kernel_size=(3, 2), stride=(2, 1),
+                            padding=(1, 0)),
+            Act(),
+            torch.nn.Flatten(),
+            torch.nn.Linear(27, 4),
+        )
+    elif name == 'nd':
+        # linear layers applied to 3-D inputs (B, T=3, features)
+        m = torch.nn.Sequential(
+            torch.nn.Linear(4, 5), Act(),
+            torch.nn.Linear(5, 2, bias=False),
+        )
     elif name == 'mlp4':
         # four layers for load-balancing variety; A 5,8,6,4 G 7,... distinct
         m = torch.nn.Sequential(
@@ -155,11 +171,12 @@ def make_model(name: str, seed: int, dtype: torch.dtype) -> torch.nn.Module:
 
 def in_shape(name: str) -> tuple[int, ...]:
     return {'mlp3': (4,), 'mlp2': (3,), 'mlp2nb': (3,), 'conv': (2, 4, 4),
-            'mlp4': (4,)}[name]
+            'mlp4': (4,), 'conv2': (2, 5, 4), 'nd': (3, 4)}[name]
 
 
-def out_dim(name: str) -> int:
-    return {'mlp3': 2, 'mlp2': 3, 'mlp2nb': 2, 'conv': 4, 'mlp4': 2}[name]
+def out_shape(name: str) -> tuple[int, ...]:
+    return {'mlp3': (2,), 'mlp2': (3,), 'mlp2nb': (2,), 'conv': (4,),
+            'mlp4': (2,), 'conv2': (4,), 'nd': (3, 2)}[name]
 
 
 def make_batch(cfg: Config, seed: int, rank: int, it: int, mb: int,
@@ -168,7 +185,7 @@ def make_batch(cfg: Config, seed: int, rank: int, it: int, mb: int,
         7919 * seed + 104729 * rank + 1299709 * it + 15485863 * mb + 17,
     )
     x = torch.randn((cfg.batch,) + in_shape(cfg.model), generator=g)
-    y = torch.randn((cfg.batch, out_dim(cfg.model)), generator=g)
+    y = torch.randn((cfg.batch,) + out_shape(cfg.model), generator=g)
     return x.to(dtype), y.to(dtype)
 
 
